@@ -261,6 +261,14 @@ pub fn run(spec: RunSpec) -> i32 {
 
     let replay_dir = format!("{}/evidence/replay", spec.verif_dir);
     let _ = std::fs::create_dir_all(&replay_dir);
+    // replay files of earlier runs of this property are stale now
+    if let Ok(rd) = std::fs::read_dir(&replay_dir) {
+        for e in rd.flatten() {
+            if e.file_name().to_string_lossy().starts_with(&format!("{}-", spec.prop)) {
+                let _ = std::fs::remove_file(e.path());
+            }
+        }
+    }
     let mut lines: Vec<String> = Vec::new();
     for (sig, k) in &known_sigs {
         let n = total.excluded_known.get(sig).copied().unwrap_or(0);
